@@ -124,7 +124,54 @@ func c05Scenario(r *rand.Rand) (*txWorld, *dsTruth, string, error) {
 					in = append(in, t)
 				}
 			}
+			// the body of one more transaction (not in this block, not conflicting with it)
+			// reaches the node while the block is being processed
+			var mid *txInfo
+			if r.Intn(3) == 0 && !catchingUp {
+				for _, t := range pool {
+					if len(t.confirmedAt) > 0 || processed[t] || tr.pool[t] {
+						continue
+					}
+					ok := true
+					for _, op := range t.spends {
+						if confirmedOuts[op] {
+							ok = false
+						}
+					}
+					for _, q := range in {
+						if q == t || shares(q, t) {
+							ok = false
+						}
+					}
+					if ok {
+						mid = t
+						break
+					}
+				}
+				if mid != nil {
+					w.midBlock = []*txInfo{mid}
+					w.midBlockAt = r.Intn(3)
+					fp += "M"
+				}
+			}
+			var prePool []*txInfo
+			for u := range tr.pool {
+				prePool = append(prePool, u)
+			}
 			b := w.mine(in, r.Intn(2) == 0)
+			if mid != nil {
+				// it entered the mempool at some point during the block: a conflict with a
+				// transaction this block evicts may or may not have been seen
+				for _, u := range prePool {
+					if shares(u, mid) {
+						tr.justified[mid] = true
+					}
+				}
+			}
+			if mid != nil && len(w.midBlock) > 0 {
+				w.midBlock = nil
+				w.arrive(mid, "trusted-bare", true)
+			}
 			for _, t := range in {
 				seen := tr.pool[t]
 				delete(tr.pool, t)
@@ -142,6 +189,24 @@ func c05Scenario(r *rand.Rand) (*txWorld, *dsTruth, string, error) {
 				}
 			}
 			fp += fmt.Sprintf("B%d", len(in))
+			if mid != nil && mid.processedUnconf > 0 {
+				// for the ground truth it arrived right after the block
+				processed[mid] = true
+				for u := range tr.pool {
+					if u != mid && shares(u, mid) {
+						if tr.conflicted[mid] == nil {
+							tr.conflicted[mid] = map[*txInfo]bool{}
+						}
+						if tr.conflicted[u] == nil {
+							tr.conflicted[u] = map[*txInfo]bool{}
+						}
+						tr.conflicted[mid][u] = true
+						tr.conflicted[u][mid] = true
+						fp += "X"
+					}
+				}
+				tr.pool[mid] = true
+			}
 		}
 	}
 	if catchingUp {
